@@ -50,6 +50,11 @@ class Bag(Org):
         return iter(list(self.members))
 
 
+@dataclass(repr=False)
+class Crate(Org):
+    """a plain @dataclass: __eq__ generated from the fields, hence not hashable"""
+
+
 @dataclass(eq=False)
 class Person(Symbol):
     name: str
@@ -177,5 +182,5 @@ Org.has_part = HasPart(Org, "has_part")
 PERSON_CLASSES = {"Person": Person, "Employee": Employee, "Manager": Manager, "Volunteer": Volunteer,
                   "WorkingStudent": WorkingStudent}
 ORG_CLASSES = {"Org": Org, "Dept": Dept}
-ODD_CLASSES = {"Bag": Bag}
+ODD_CLASSES = {"Bag": Bag, "Crate": Crate}
 ALL_CLASSES = {**PERSON_CLASSES, **ORG_CLASSES, "Chief": Chief, "VOrg": VOrg, "VPerson": VPerson}
